@@ -577,6 +577,34 @@ fn main() {
                     outln!("log {} {}", t[1], c.files[fi].0.borrow().log.len());
                 }
             }
+            "alignstat" => {
+                // alignstat <bs_bits>: requests whose offset / length / buffer address is not block aligned
+                let c = cur.as_mut().unwrap();
+                let bs: u64 = 1u64 << t[1].parse::<u32>().unwrap();
+                let from: usize = if t.len() > 2 { t[2].parse().unwrap() } else { 0 };
+                for (fi, f) in c.files.iter().enumerate() {
+                    let inner = f.0.borrow();
+                    let mut bad = 0;
+                    let mut first = String::new();
+                    let mut n = 0;
+                    for r in inner.log.iter().skip(from) {
+                        if r.kind == Kind::Sync {
+                            continue;
+                        }
+                        n += 1;
+                        let b_off = r.off % bs != 0;
+                        let b_len = (r.len as u64) % bs != 0;
+                        let b_buf = r.kind != Kind::Zero && (r.bufmod as u64) % bs != 0;
+                        if b_off || b_len || b_buf {
+                            bad += 1;
+                            if first.is_empty() {
+                                first = format!("{}:{}:{}:{}:op{}", r.kind.ch(), r.off, r.len, r.bufmod, r.op);
+                            }
+                        }
+                    }
+                    outln!("alignstat file={} reqs={} bad={} first={}", fi, n, bad, if first.is_empty() { "-".to_string() } else { first });
+                }
+            }
             "reqcount" => {
                 let c = cur.as_mut().unwrap();
                 let mut s = String::new();
